@@ -10,6 +10,7 @@ type Ctx struct {
 	Tier string
 	bvm  *core.BVM
 	cm   *contractsModel
+	lm   *ledgerModel
 }
 
 // BVM builds the dispatch model once per run.
